@@ -200,7 +200,7 @@ func buildEvidence(id string, prop Property, tier string, seed int, p *load.Prog
 	if p.Normal != nil {
 		cov["analysed"].(map[string]interface{})["normaliser"] = map[string]interface{}{
 			"helpers_outside_known_table": p.Normal.Candidates, "expansions": p.Normal.Expanded,
-			"removed_after_expansion": p.Normal.Removed, "not_expanded": p.Normal.Skipped, "abandoned": p.Normal.Failed, "renamed_known_functions": p.Normal.Renamed,
+			"removed_after_expansion": p.Normal.Removed, "not_expanded": p.Normal.Skipped, "abandoned": p.Normal.Failed, "renamed_known_functions": p.Normal.Renamed, "struct_variables_split": p.Normal.Split,
 		}
 	}
 	if prop.Level == "proof" {
